@@ -282,6 +282,7 @@ func evalTrieCase(w *h.Worker, c *h.Case, u *inputSpec, oracle trieOracle, recor
 	}
 	if record {
 		w.Evals++
+		w.Tick()
 	}
 	var stream []byte
 	if record {
